@@ -123,7 +123,7 @@ def getModRM(obj, Mod, RM, data, REX=None):
     if Mod == 0:
         if RM == 0b101:
             b = env.rip
-            if seg == "":
+            if isinstance(seg, str) and seg == "":
                 seg = env.cs
             Mod = 0b10
         elif b.ref in ("rbp", "r13"):
